@@ -236,9 +236,30 @@ structure Framing where
 def be24 (b1 b2 b3 : UInt8) : Nat := b1.toNat * 65536 + b2.toNat * 256 + b3.toNat
 def be32 (b0 b1 b2 b3 : UInt8) : Nat := b0.toNat * 16777216 + be24 b1 b2 b3
 
+def be32enc (n : Nat) : Bytes :=
+  [UInt8.ofNat (n / 16777216 % 256), UInt8.ofNat (n / 65536 % 256), UInt8.ofNat (n / 256 % 256), UInt8.ofNat (n % 256)]
+
+/-- asyncio `PrefixProtocol.ping(data)`: `header = struct.pack("!L", len(data))`;
+`transport.write(bytes(bytearray([FRAME_TYPE_PONG])) + header[1:]); transport.write(data)` — one frame of the type the
+source names (read into `aioPingReplyType`), 24-bit length, the same payload. -/
+def aioPingReply (p : Bytes) : Bytes :=
+  UInt8.ofNat WampTransport.aioPingReplyType :: (be32enc p.length).drop 1 ++ p
+
+/-- what `PrefixProtocol.data_received` does with a complete frame (`Bool` = an exception left `data_received`):
+a data frame goes to `stringReceived`; a PING is answered with one PONG carrying the same payload; a PONG is consumed.
+Legacy (F13, repaired in /repo 4c355c2c): `ping()`/`pong()` were `raise NotImplementedError()`;
+the translator reads which it is (`aioPingRaises`, `aioPongRaises`), so re-introducing the `raise` makes the model raise
+again and `prefix_never_raises` / `aio_serves` stop checking. -/
+def aioDispatch (kind : Nat) (p : Bytes) : List Ev × Bool :=
+  if kind = WampTransport.aioTypeData then ([.string p], false)
+  else if kind = WampTransport.aioTypePing then
+    (if WampTransport.aioPingRaises then ([.raised .notImplemented], true) else ([.written (aioPingReply p)], false))
+  else
+    (if WampTransport.aioPongRaises then ([.raised .notImplemented], true) else ([], false))
+
 /-- asyncio `PrefixProtocol.data_received`: `frame_type = header[0] & 0b111`; `> FRAME_TYPE_PONG` →
 `protocol_error("Invalid frame type")` (= `transport.close()`); 24-bit length `> max_length` →
-`protocol_error("Frame too big")`. `ping()`/`pong()` are `raise NotImplementedError()` (F13). -/
+`protocol_error("Frame too big")`. -/
 def aioFraming (maxLength : Nat) : Framing where
   judge b0 b1 b2 b3 :=
     let ty := b0.toNat &&& WampTransport.aioTypeMask
@@ -246,17 +267,23 @@ def aioFraming (maxLength : Nat) : Framing where
     else
       let len := be24 b1 b2 b3
       if len > maxLength then .reject [.tclose .close] else .frame ty len
-  dispatch kind p :=
-    if kind = WampTransport.aioTypeData then ([.string p], false)
-    else ([.raised .notImplemented], true)
+  dispatch := aioDispatch
+
+/-- what the `lengthLimitExceeded(length)` override of twisted/rawsocket.py does (`twLengthLimitAction`, read from the
+source): 0 — logs and calls `self.abort()` (`transport.abortConnection()`); 1 — legacy (N1, repaired in /repo
+3817d6f2): `raise PayloadExceededError`, which left `dataReceived`;
+otherwise — the base class behaviour `transport.loseConnection()`. -/
+def twLimitEvents : List Ev :=
+  if WampTransport.twLengthLimitAction = 0 then [.tclose .abort]
+  else if WampTransport.twLengthLimitAction = 1 then [.raised .payloadExceeded]
+  else [.tclose .close]
 
 /-- Twisted `Int32StringReceiver.dataReceived` as used by `WampRawSocketProtocol`: 32-bit big-endian
-length; `length > MAX_LENGTH` → `lengthLimitExceeded(length)` *before* the string is waited for;
-the override in twisted/rawsocket.py raises `PayloadExceededError`, which leaves `dataReceived`. -/
+length; `length > MAX_LENGTH` → `lengthLimitExceeded(length)` *before* the string is waited for, then `return`. -/
 def twFraming (maxLength : Nat) : Framing where
   judge b0 b1 b2 b3 :=
     let len := be32 b0 b1 b2 b3
-    if len > maxLength then .reject [.raised .payloadExceeded] else .frame 0 len
+    if len > maxLength then .reject twLimitEvents else .frame 0 len
   dispatch _ p := ([.string p], false)
 
 /-- the first four octets of a buffer and what follows them (`none`: fewer than four) -/
@@ -334,9 +361,10 @@ def parse (F : Framing) : Nat → Bytes → List Ev × Option Bytes
 def parseStream (F : Framing) (s : Bytes) : List Ev × Option Bytes := parse F (s.length + 1) s
 
 /-- wire form of one RawSocket frame of type `ty` (0 data, 1 ping, 2 pong) with a payload shorter than 2^24 -/
-def encodeFrame (ty : Nat) (p : Bytes) : Bytes :=
-  [UInt8.ofNat ty, UInt8.ofNat (p.length / 65536 % 256),
-   UInt8.ofNat (p.length / 256 % 256), UInt8.ofNat (p.length % 256)] ++ p
+def frameHeader (ty len : Nat) : Bytes :=
+  [UInt8.ofNat ty, UInt8.ofNat (len / 65536 % 256), UInt8.ofNat (len / 256 % 256), UInt8.ofNat (len % 256)]
+
+def encodeFrame (ty : Nat) (p : Bytes) : Bytes := frameHeader ty p.length ++ p
 
 /-! ## The connection: 4-octet accumulator, then framing -/
 
@@ -416,44 +444,55 @@ inductive SendOut
   | error (e : Exc)         -- exception from `ITransport.send()`, nothing written
 deriving DecidableEq, Repr
 
-def be32enc (n : Nat) : Bytes :=
-  [UInt8.ofNat (n / 16777216 % 256), UInt8.ofNat (n / 65536 % 256), UInt8.ofNat (n / 256 % 256), UInt8.ofNat (n % 256)]
-
 /-- exception class named by the generated code (0 `PayloadExceededError`, 1 `ValueError`, else other) -/
 def excOfCode : Nat → Exc
   | 0 => .payloadExceeded
   | 1 => .valueError
   | _ => .other
 
-/-- Twisted `send()`: `if 0 < self._max_len_send < payload_len: raise PayloadExceededError` else
-`sendString` (`struct.pack("!I", len) + data`; `StringTooLongError` from 2^32 on is out of range here).
-asyncio `WampRawSocketMixinGeneral.send()`: `if payload_len > self.max_length_send: raise PayloadExceededError`
+/-- `min(limit, C)` as the send guards write it; `cap = 0` stands for "no `min` in the source" (legacy N2) -/
+def capped (limit cap : Nat) : Nat := if cap = 0 then limit else min limit cap
+
+/-- Twisted `send()`: `max_len_send = min(self._max_len_send, 2**24 - 1); if 0 < max_len_send < payload_len: raise
+PayloadExceededError` else `sendString` (`struct.pack("!I", len) + data`).
+asyncio `WampRawSocketMixinGeneral.send()`: `max_length_send = min(self.max_length_send, 2**24 - 1);
+if payload_len > max_length_send: raise PayloadExceededError`
 (legacy F14, repaired in /repo 11645fb6: only `sendString` checked and raised `ValueError("Data too big")`; the
-translator reads the class raised on this path into `aioSendOverLimitExc`). `none` = the payload goes out. -/
+translator reads the class raised on this path into `aioSendOverLimitExc`). `none` = the payload goes out.
+Legacy (N2, repaired in /repo 8cc5721d): the guards compared with the announced limit alone, so
+with exponent 15 a payload of exactly 2^24 octets went out with prefix `01 00 00 00`. The caps are read from the source
+(`twSendFrameCap`, `aioSendFrameCap`, `aioSendStringFrameCap`; 0 = no cap). -/
 def sendGuard (v : Variant) (maxLenSend len : Nat) : Option Exc :=
   match v with
-  | .twisted => if 0 < maxLenSend ∧ maxLenSend < len then some .payloadExceeded else none
-  | .asyncio => if len > maxLenSend then some (excOfCode WampTransport.aioSendOverLimitExc) else none
+  | .twisted =>
+    let m := capped maxLenSend WampTransport.twSendFrameCap
+    if 0 < m ∧ m < len then some .payloadExceeded else none
+  | .asyncio =>
+    if len > capped maxLenSend WampTransport.aioSendFrameCap then some (excOfCode WampTransport.aioSendOverLimitExc) else none
 
 /-- asyncio `PrefixProtocol.sendString(data)` called directly (the second line of defence below `send()`):
-`if l > self.max_length_send: raise ValueError("Data too big")`, else prefix + data are written -/
+`if l > min(self.max_length_send, 2**24 - 1): raise ValueError("Data too big")`, else prefix + data are written -/
 def aioSendStringGuard (maxLenSend len : Nat) : Option Exc :=
-  if len > maxLenSend then some .valueError else none
+  if len > capped maxLenSend WampTransport.aioSendStringFrameCap then some .valueError else none
 
 def send (v : Variant) (maxLenSend : Nat) (payload : Bytes) : SendOut :=
   match sendGuard v maxLenSend payload.length with
   | some e => .error e
   | none => .sent (be32enc payload.length ++ payload)
 
-/-- Spec of the send side: a payload within the peer's announced maximum goes out as prefix + payload;
-a longer one is refused with `PayloadExceededError` and nothing is written. -/
+/-- the longest payload a RawSocket frame can carry: its length field has 24 bits -/
+def frameMax : Nat := 16777215
+
+/-- Spec of the send side: a payload within the peer's announced maximum *that fits the 24-bit length field* goes out as
+one data frame (type octet 0, 24-bit length, payload); any other is refused with `PayloadExceededError` and nothing is
+written. (Exponent 15 announces 2^24, one more than a frame can carry.) -/
 def sendGuardSpec (peerMax len : Nat) : Option Exc :=
-  if len ≤ peerMax then none else some .payloadExceeded
+  if len ≤ peerMax ∧ len ≤ frameMax then none else some .payloadExceeded
 
 def sendSpec (peerMax : Nat) (payload : Bytes) : SendOut :=
   match sendGuardSpec peerMax payload.length with
   | some e => .error e
-  | none => .sent (be32enc payload.length ++ payload)
+  | none => .sent (encodeFrame 0 payload)
 
 /-! ## `stringReceived` exception ladders, and the transport-gone notification -/
 
